@@ -12,7 +12,7 @@ Extraction "Extract/model.ml"
   sha512 node_len tree_new batches root_from_paths chunks
   s_root s_path s_recompute
   classify srep_value make_srep make_cert make_dele ltk_srv_value ltk_public_key calc_srv_value
-  server_new process_events grease
+  server_new process_events grease responder_new responder_reset responder_add send_responses
   wellformed verify_response
   signer_from_seed run_signer messages run_verifier
   pc_new pc_run pc_total pc_total_bytes agg_run cs_get rep_receive
